@@ -238,6 +238,58 @@ def run_relaunch(case):
         shutil.rmtree(tmp, ignore_errors=True)
 
 
+def run_torch_trainer(case):
+    """trainer progress of the PyTorch trainer (optimizer state) across runs, saves and loads into fresh trainers - also a save
+    that follows a load with no run in between; the stand-in torch.optim counts optimizer steps and persists the count"""
+    stubs = os.path.join(os.path.dirname(os.path.dirname(os.path.abspath(__file__))), "stubs")
+    if stubs not in sys.path:
+        sys.path.insert(0, stubs)
+    import torch.nn as nn
+    import torch.optim as optim
+    from pamiq_core.model import TrainingModelsDict
+    from pamiq_core.torch import TorchTrainer, TorchTrainingModel
+
+    class Net(nn.Module):
+        def __init__(self):
+            super().__init__(2, 0)
+
+        def forward(self):
+            return [p.read() for p in self.parameters()]
+
+    class HT(TorchTrainer):
+        def on_training_models_attached(self):
+            self.mm = self.get_torch_training_model("m")
+
+        def create_optimizers(self):
+            return {"opt": optim.SGD(self.mm.model.parameters(), lr=1)}
+
+        def train(self):
+            for p in self.mm.model.parameters():
+                p.grad = 1
+            self.optimizers["opt"].step()
+
+    def fresh():
+        ht = HT()
+        ht.attach_training_models(TrainingModelsDict({"m": TorchTrainingModel(Net(), has_inference_model=True)}))
+        return ht
+
+    tmp = tempfile.mkdtemp(prefix="c05t_")
+    try:
+        ht, steps = fresh(), []
+        for k, op in enumerate(case["ops"]):
+            if op == "run":
+                ht.run()
+                steps.append(ht.optimizers["opt"].steps)
+            else:                                   # a relaunch: save, then load into a fresh trainer
+                p = Path(tmp) / f"t{k}"
+                ht.save_state(p)
+                ht = fresh()
+                ht.load_state(p)
+        return {"opt_steps": steps}
+    finally:
+        shutil.rmtree(tmp, ignore_errors=True)
+
+
 def main():
     if len(sys.argv) > 2 and sys.argv[1] == "--second":
         return second_run(sys.argv[2])
@@ -247,7 +299,7 @@ def main():
     out = []
     for c in cases:
         try:
-            out.append(run_relaunch(c) if c.get("kind") == "relaunch" else run_store(c))
+            out.append(run_torch_trainer(c) if c.get("kind") == "torchtrainer" else run_relaunch(c) if c.get("kind") == "relaunch" else run_store(c))
         except BaseException as e:  # noqa: BLE001
             import traceback
             out.append({"error": f"{type(e).__name__}: {e}", "tb": traceback.format_exc()[-1500:]})
